@@ -3,7 +3,7 @@ use super::common::*;
 use super::dec::*;
 use super::stateprops::{mixed_machine, runseq_for, sigma13};
 use super::*;
-use crate::engine::{Acc, ReplayOut};
+use crate::engine::{Acc, Ix, ReplayOut};
 use crate::explore::*;
 use crate::refmodel::*;
 use crate::subject::{self, DecOut, LenOut, Owned, ProcOut};
@@ -354,6 +354,41 @@ pub fn run_c09(run: &mut Run) {
                     acc.violation(3, kind, d, || json!({"prop": "C09", "check": "decode", "input": hex(q), "state": hist, "cfg": cfg}));
                 }
             }
+        });
+    }
+    // run-length and cache-thrashing histories: the decode outcome of the last packet must be the
+    // reference's whatever came before
+    runseq_for(run, "C09", &|d: &Diff, h: &[Event]| d.aspect == Aspect::Result && matches!(h.last(), Some(Event::Decode(_)) | Some(Event::Process(_))));
+    // protocol-shaped content at lengths the library's fixed-length table does not allow: Get MCTP
+    // Version Support responses with 0..=4 entries drawn from three real version numbers, Set EID
+    // requests/responses and UUID responses one field short or long
+    {
+        let entries: [[u8; 4]; 3] = [[0xF1, 0xF3, 0xF1, 0x00], [0xF1, 0xF2, 0xF0, 0x00], [0xF1, 0xF0, 0xF0, 0x00]];
+        let mut cases: Vec<Vec<u8>> = vec![];
+        for n in 0..=4usize {
+            for combo in 0..3u32.pow(n as u32) {
+                let mut d = vec![n as u8];
+                let mut c = combo;
+                for _ in 0..n {
+                    d.extend_from_slice(&entries[(c % 3) as usize]);
+                    c /= 3;
+                }
+                cases.push(forge_response(SRC, DST, 0, 0x04, 0, &d));
+            }
+        }
+        for extra in [vec![], vec![0x00], vec![0x00, 0x00]] {
+            cases.push(forge_response(SRC, DST, 0, 0x01, 0, &[&[0x00u8, 0x09][..], &extra[..]].concat()));
+            cases.push(forge_request(SRC, DST, 0, false, 0x01, &[&[0x00u8][..], &extra[..]].concat()));
+            cases.push(forge_response(SRC, DST, 0, 0x03, 0, &[&[0xAB; 15][..], &extra[..]].concat()));
+        }
+        let specs = c09_specs();
+        run.seq("protocol-shaped responses/requests at other than the fixed lengths", cases.len() as u64, |acc| {
+            let owned: Vec<Owned> = specs.iter().map(|s| Owned::new(&s.cfg)).collect();
+            for (i, c) in cases.iter().enumerate() {
+                let ctxs: Vec<_> = owned.iter().zip(&specs).map(|(o, s)| build(o, &s.history)).collect();
+                c09_one(acc, &ctxs, c, 1, i as u64);
+            }
+            cases.len() as u64
         });
     }
     // a stride of the t=1 space on every reachable state of the C13 machine
@@ -1110,6 +1145,53 @@ pub fn run_c02(run: &mut Run) {
                 for d in v {
                     acc.violation(3, "weak-checksum-preserving", d, || json!({"prop": "C02", "check": "input", "spec": specs[si], "input": hex(q), "orig": hex(small[*pi])}));
                 }
+            }
+        });
+    }
+    // (a'') packets from a sender that computes the PEC differently (over the wrong range, with another
+    // initial value, inverted, reflected), as runs of 0..=8 such packets followed by one more: no number
+    // of consistent mistakes may make the endpoint adopt the sender's rule
+    {
+        fn alt_pec(kind: u64, p: &[u8]) -> u8 {
+            let n = p.len();
+            let refl = |b: u8| b.reverse_bits();
+            match kind {
+                0 => crc8(&p[1..n - 1]),
+                1 => crc8(&p[..n - 2]),
+                2 => crc8(&p[4..n - 1]),
+                3 => !crc8(&p[..n - 1]),
+                4 => crc8(&[&[0xFFu8][..], &p[..n - 1]].concat()),
+                5 => refl(crc8(&p[..n - 1].iter().map(|b| refl(*b)).collect::<Vec<u8>>())),
+                _ => p[..n - 1].iter().fold(0u8, |a, b| a.wrapping_add(*b)).wrapping_neg(),
+            }
+        }
+        run.sweep("senders with a different PEC rule (7 rules) x runs of 0..=8 distinct packets, then one more, x 2 contexts", 7 * 9 * 2, |acc, i| {
+            let mut ix = Ix(i);
+            let si = ix.take(2) as usize;
+            let r = ix.take(9);
+            let kind = ix.take(7);
+            let mk = |e: u8, iid: u8| {
+                let mut p = forge_request(SRC, DST, iid, false, 0x01, &[0, e]);
+                let n = p.len();
+                p[n - 1] = alt_pec(kind, &p);
+                p
+            };
+            let mut spec = specs[si].clone();
+            for j in 0..r {
+                spec.history.push(Event::Process(mk(0x60 + j as u8, j as u8)));
+            }
+            let last = mk(0x77, 9);
+            acc.evals += 1;
+            if crc8(&last) == 0 || spec.history.iter().any(|e| matches!(e, Event::Process(p) if crc8(&p[..]) == 0)) {
+                return; // the alternative rule happens to agree with the real one for this packet
+            }
+            let owned = Owned::new(&spec.cfg);
+            let (v, calls, _) = judge_c02(&spec, &owned, &last);
+            acc.trans += calls;
+            acc.validated += 1;
+            acc.nontrivial(Fnv::default().u64(0x2AF).u64(i).finish());
+            for d in v {
+                acc.violation(r + 1, "alternative-pec-rule", format!("after {} packets with the same wrong PEC rule: {}", r, d), || json!({"prop": "C02", "check": "input", "spec": spec, "input": hex(&last)}));
             }
         });
     }
